@@ -582,7 +582,7 @@ impl Property for C16 {
     }
     fn cases(&self, cfg: &Cfg) -> u64 {
         // all 2^13 optional-field subsets of status in blocks of 64, then random blocks
-        (1u64 << NOPT) / 64 + cfg.tier.pick(200, 20_000)
+        (1u64 << NOPT) / 64 + cfg.tier.pick(1_500, 20_000)
     }
     fn run_case(&self, cfg: &Cfg, i: u64, acc: &mut Acc) {
         let mut r = Rng::keyed(&[cfg.seed, 16, i]);
